@@ -2,6 +2,7 @@ import AidlVerif.Driver.Codec
 import AidlVerif.Model.Validation
 import AidlVerif.Props.C07
 import AidlVerif.Props.C05
+import AidlVerif.Props.C10
 
 /-
   Model driver: one JSON case per input line, one JSON verdict per output line.
@@ -105,8 +106,20 @@ def handleC05 (c : ValCtx) (v : Verdict) : Verdict :=
     | some ast => (Spec.C05.nodes ast).map fun n => catName (Spec.Category.of n.2.2)
   { v with nontrivial := !refs.isEmpty, dist := kinds.foldl bump v.dist }
 
+def handleC10 (c : ValCtx) (v : Verdict) : Verdict :=
+  let v := v.addCorr "C10" (decide (c.model.map Spec.C10.proj = c.out.map Spec.C10.proj))
+  let v := v.addSpec "C10" ((zipById c.stage1 c.out).all fun (a, b) => Spec.C10.holdsFile a b)
+  let v := v.addAssume "C10" (c.stage1.all fun fr => match fr.ast, groupsOf c fr with
+    | some ast, some (g, ids) => decide (Props.C10.Fresh ast g ids)
+    | _, _ => true)
+  let ms := c.stage1.flatMap fun fr => match fr.ast with
+    | none => []
+    | some ast => (Spec.methodsOf ast).map fun m =>
+        s!"iface_oneway={Spec.interfaceOneway ast}/method_oneway={m.oneway}/void={decide (m.returnType.kind = .void)}"
+  { v with nontrivial := !ms.isEmpty, dist := ms.foldl bump v.dist }
+
 def valHandlers : List (String × (ValCtx → Verdict → Verdict)) :=
-  [("C07", handleC07), ("C05", handleC05)]
+  [("C07", handleC07), ("C05", handleC05), ("C10", handleC10)]
 
 def opValidate (prop : String) (j : Json) : R Verdict := do
   let impl ← fld j "impl"
